@@ -24,6 +24,7 @@ func init() { register("C12", "model_checking", c12) }
 type arena struct {
 	bufs  [][]byte // full backing arrays
 	saved [][]byte
+	fill  int // 0: patterned data, 1: all 0x00, 2: all 0xFF (carries / borrows, "empty" looking fields)
 }
 
 const canary = 0xC9
@@ -47,7 +48,14 @@ func (a *arena) slice(n, shape int, seed byte) []byte {
 		full[i] = canary
 	}
 	for i := 0; i < n; i++ {
-		full[pre+i] = seed + byte(i*3)
+		switch a.fill {
+		case 1:
+			full[pre+i] = 0x00
+		case 2:
+			full[pre+i] = 0xFF
+		default:
+			full[pre+i] = seed + byte(i*3)
+		}
 	}
 	a.bufs = append(a.bufs, full)
 	a.saved = append(a.saved, append([]byte(nil), full...))
@@ -99,7 +107,7 @@ func newC12Env() *c12Env {
 // run executes one operation with arguments in the requested memory shape, then checks
 // every byte the caller owns.
 func (e *c12Env) run(c c12Case) (obs, bad string) {
-	a := &arena{}
+	a := &arena{fill: (c.Sub / 2) % 3}
 	sec := hopSec
 	full := shape{Text: "OCRA-1:HOTP-SHA1-6:C-QN08-PSHA1-S-T1M", Hash: c.Sub % 3, Digits: 6 + c.Sub%5, C: true, Q: true, P: true, S: true, T: true, QF: 1, PH: 1, TS: 60}
 	in := otp.OCRAInput{Counter: a.slice(c.Lens[0], c.Shape, 1), Challenge: a.slice(c.Lens[1], c.Shape, 2), Password: a.slice(c.Lens[2], c.Shape, 3), SessionInfo: a.slice(c.Lens[3], c.Shape, 4), Timestamp: a.slice(c.Lens[4], c.Shape, 5)}
@@ -150,7 +158,11 @@ func (e *c12Env) run(c c12Case) (obs, bad string) {
 				results = append(results, s+errStr(err))
 				retain(&kept, op, []string{s})
 			case "ValidateOCRA":
-				ok, err := otp.ValidateOCRA(sec, "123456", cfg, in)
+				code := "123456"
+				if cfg.Digits >= 1 && cfg.Digits <= 10 && c.Sub%2 == 0 {
+					code = strings.Repeat("1", cfg.Digits) // a wrong code of the RIGHT length goes all the way through the comparison
+				}
+				ok, err := otp.ValidateOCRA(sec, code, cfg, in)
 				results = append(results, fmt.Sprint(ok, err != nil))
 			case "OCRAInput.Validate":
 				results = append(results, errStr(in.Validate(cfg)))
